@@ -59,7 +59,19 @@ pub fn to_listing(
             } else {
                 let mut source_line_emitted = false;
 
-                let chunks = data.chunks(num_bytes_per_line);
+                // A row shows consecutive addresses only: the bytes of a line that is emitted several times (in a loop,
+                // a macro or an import) are not adjacent in memory
+                let mut runs: Vec<Vec<(usize, u8)>> = vec![];
+                for (pc, byte) in data {
+                    match runs.last_mut() {
+                        Some(run) if run.last().map(|(last_pc, _)| last_pc + 1) == Some(pc) => {
+                            run.push((pc, byte))
+                        }
+                        _ => runs.push(vec![(pc, byte)]),
+                    }
+                }
+
+                let chunks = runs.iter().flat_map(|run| run.chunks(num_bytes_per_line));
                 for chunk in chunks {
                     let pc = chunk.iter().next().unwrap().0;
                     let bytes = chunk.iter().map(|(_, bytes)| bytes).collect_vec();
